@@ -1105,7 +1105,43 @@ def type_byte_rule(prog, res, rule, f):
             var = it[1]['dest']
             start = g.vertex_of.get(it[1]['node'])
     if var is None:
-        res.viol(rule, 'parameter.type.map', f.loc(), 'no signed one-byte read of the element type', function=f.sig, expr='parameter.type.map')
+        # the type byte may be handed straight to a helper whose result is stored:  _data_type = H(readInt(1))
+        import a7
+        for it in io_only(codec.Extractor(prog, 'r').seq_of(f)):
+            if it[0] == 'io' and it[1].get('k') == 'readInt' and pshow(it[1].get('width')) == '1' and it[1].get('dest') == 'this._data_type':
+                rd = f.nodes[it[1]['node']]
+                par = None
+                for a_ in f.ancestors(rd['id']):
+                    an = f.nodes[a_]
+                    if an['k'] == 'CallExpr' and an.get('callee', {}).get('inrepo'):
+                        par = an
+                        break
+                    if an['k'] not in ('ImplicitCastExpr', 'CXXStaticCastExpr', 'ParenExpr', 'ExprWithCleanups', 'MaterializeTemporaryExpr', 'CStyleCastExpr'):
+                        break
+                hf = prog.funcs.get(par['callee']['usr']) if par is not None else None
+                if hf is None or hf.body is None or len(hf.params) != 1:
+                    continue
+                bad = []
+                und = False
+                for tv in (-1, 1, 2, 4, 0, 3, -2, 8, 127, -128):
+                    st = {}
+                    _, end, _u = a7.walk(hf, {'arg0': tv}, follow_loops=True, state=st, max_steps=500)
+                    if end.startswith('undecided') or end == 'loop':
+                        und = True
+                        break
+                    got = 'type:%s' % st.get('ret') if end == 'NEXIT' else end.split('@')[0]
+                    want = 'type:%d' % tv if tv in (-1, 1, 2, 4) else 'throw:std::ios_base::failure'
+                    if got != want:
+                        bad.append('type byte %d -> %s (specified %s)' % (tv, got, want))
+                if und:
+                    break
+                if bad:
+                    res.viol(rule, 'parameter.type.map', hf.loc(), '; '.join(bad[:3]), function=f.sig, expr='parameter.type.map')
+                else:
+                    res.ok(rule, 'parameter.type.map', hf.loc(), 'identity on {-1,1,2,4}, std::ios_base::failure otherwise (10 byte values walked through %s)' % hf.name, function=f.sig, expr='parameter.type.map')
+                return
+        res.undecided(rule, 'parameter.type.map', f.loc(), 'the element type byte is not read into a local that is then mapped (nor mapped by a helper the rule can walk) [shape not read by the rule]',
+                      function=f.sig, expr='parameter.type.map')
         return
     bad = []
     for tv in (-1, 1, 2, 4, 0, 3, -2, 8, 127, -128):
@@ -1248,22 +1284,27 @@ def payload_reader(prog, res, rule, f, ck):
             '4': (g3.usr, {'arg0': 'this._dimension', 'arg1': 'this._param_data_float'})}
     seen = set()
     it = ck.take(('alt',))
+    unread = None
     while it is not None:
-        m = re.match(r'^\(\(int\)this\._data_type == (-?\d+)\)$', it[1])
-        if not m:
-            ck.bad('data.dispatch', ck.where(it), 'unexpected payload dispatch condition %s' % it[1])
+        ts = re.findall(r'\(\(int\)this\._data_type == (-?\d+)\)', it[1])
+        if not ts or not re.match(r'^[()| ]*(?:\(\(int\)this\._data_type == -?\d+\)[()| ]*)+$', it[1]):
+            unread = it
             break
-        t = m.group(1)
-        seen.add(t)
         th = io_only(it[2])
-        if len(th) == 1 and th[0][0] == 'call' and t in want and th[0][1].usr == want[t][0] and all(th[0][2].get(k) == v for k, v in want[t][1].items()):
-            ck.ok('data[type=%s]' % t, ck.where(th[0]), 'elements read into %s by %s' % (list(want[t][1].values())[-1], th[0][1].name))
-        else:
-            ck.bad('data[type=%s]' % t, ck.where(th[0] if th else it), 'payload of type %s must be read by the matching reader into its own vector; found %s with %s' %
-                   (t, describe(th[0]) if th else 'nothing', th[0][2] if th and th[0][0] == 'call' else ''))
+        for t in ts:
+            seen.add(t)
+            if len(th) == 1 and th[0][0] == 'call' and t in want and th[0][1].usr == want[t][0] and all(th[0][2].get(k) == v for k, v in want[t][1].items()):
+                ck.ok('data[type=%s]' % t, ck.where(th[0]), 'elements read into %s by %s' % (list(want[t][1].values())[-1], th[0][1].name))
+            else:
+                ck.bad('data[type=%s]' % t, ck.where(th[0] if th else it), 'payload of type %s must be read by the matching reader into its own vector; found %s with %s' %
+                       (t, describe(th[0]) if th else 'nothing', th[0][2] if th and th[0][0] == 'call' else ''))
         nxt = io_only(it[3])
         it = nxt[0] if len(nxt) == 1 and nxt[0][0] == 'alt' else None
-    if seen != {'-1', '1', '2', '4'}:
+        if it is None and nxt:
+            unread = nxt[0]
+    if unread is not None:
+        ck.shape('data.dispatch', ck.where(unread), 'payload dispatch continues with %s: not a test of the element type the rule reads (types read so far: %s)' % (_describe(unread), sorted(seen)))
+    elif seen != {'-1', '1', '2', '4'}:
         ck.bad('data.types', ck.fn.loc(), 'payload dispatch handles types %s, the format has -1, 1, 2, 4' % sorted(seen))
     # string re-assembly: readParam(dim, strings) reads prod(dim) single characters, then joins
     # dim[0] of them per string (1-D: one string; matrix: _dispatchMatrix) and trims trailing spaces
@@ -2580,7 +2621,16 @@ def byte_only_from_reader(prog):
     for f, nid, rhs in _c18.field_writes(prog, P_, '_data_type'):
         if rhs is None:
             return False
-        v = f.nodes[f.strip(rhs, 'all')].get('cv')
+        rn = f.nodes[f.strip(rhs, 'all')]
+        v = rn.get('cv')
+        if v is None and rn['k'] == 'CallExpr' and rn.get('callee', {}).get('inrepo'):
+            # a mapping helper: the set of constants it can return
+            hf = prog.funcs.get(rn['callee']['usr'])
+            rets = [hf.nodes[hf.strip(r_['ch'][0], 'all')].get('cv') for r_ in hf.all_nodes({'ReturnStmt'}) if r_['ch']] if hf is not None and hf.body is not None else []
+            if rets and all(x is not None for x in rets):
+                if any(int(x) == 1 for x in rets) and f.qname != P_ + '::read':
+                    return False
+                continue
         if v is None:
             if not f.implicit:
                 return False
